@@ -50,19 +50,41 @@ def open_mode(path, mode):
     return open(path, "a", encoding="utf-8", newline="\n")
 
 
-def child_run(prog, path, mode, plan_, ackfd, repeat=1):
+def child_run(prog, path, mode, plan_, ackfd, repeat=1, audit=False, late=False):
     """Runs in a forked grandchild. Never returns."""
     code = 0
     try:
         real = open_mode(path, mode)
         cf = crash.CrashFile(real, plan_)
+        acked = [0]
+
+        def ack(n):
+            # acknowledgements never go backwards: the largest number of lines the program is entitled to find in the file
+            if n > acked[0]:
+                acked[0] = n
+            crash.send_ack(ackfd, acked[0])
+        if audit:
+            # a destination registered ahead of the file that itself logs (an audit trail for selected messages): when its own
+            # logging call has returned, that line is in the file
+            from eliot import add_destinations, log_message
+
+            def audit_destination(m):
+                if m.get("message_type") != "c11:audit" and isinstance(m.get("nid"), int) and m["nid"] % 3 == 0:
+                    n0 = cf.flushed
+                    log_message(message_type="c11:audit", about=m["nid"])
+                    ack(n0 + 1)
+            add_destinations(audit_destination)
         to_file(cf)
         it = Interp()
-        it.after_api = lambda: crash.send_ack(ackfd, cf.flushed)
+        it.late_messages = late
+        it.after_api = lambda: ack(cf.flushed)
+        # every message-logging call adds at least one line before it returns (expectation, not observation)
+        it.before_msg = lambda: cf.flushed
+        it.after_msg = lambda n0: ack(n0 + 1)
         for _ in range(repeat):
             it.forest = []
             it.run(prog)
-        crash.send_ack(ackfd, cf.flushed)
+        ack(cf.flushed)
         real.close()
     except BaseException:
         import traceback
@@ -72,12 +94,12 @@ def child_run(prog, path, mode, plan_, ackfd, repeat=1):
         os._exit(code)
 
 
-def spawn(prog, path, mode, plan_, repeat=1, kill_after=None):
+def spawn(prog, path, mode, plan_, repeat=1, kill_after=None, audit=False, late=False):
     r, w = os.pipe()
     pid = os.fork()
     if pid == 0:
         os.close(r)
-        child_run(prog, path, mode, plan_, w, repeat)
+        child_run(prog, path, mode, plan_, w, repeat, audit, late)
     os.close(w)
     if kill_after is not None:
         time.sleep(kill_after)
@@ -146,12 +168,21 @@ def post_mortem(raw, ack, reference, problems):
         problems.append("Parser.parse_stream raised %r on the truncated log" % (e,))
         return len(lines), 0
     ref_count = {}
+    ends_at = {}
+    ill_formed = set()
     for u, s in reference:
         ref_count[u] = ref_count.get(u, 0) + 1
+        lvl = s[0]
+        for n in range(1, len(lvl) + 1):
+            e = ends_at.get((u, lvl[:n - 1]))
+            if e is not None and lvl[n - 1] > e:
+                ill_formed.add(u)
+        if s[3] in ("succeeded", "failed"):
+            ends_at[(u, lvl[:-1])] = lvl[-1]
     have = {}
     for m in msgs:
         have.setdefault(uu[m["task_uuid"]], []).append(m)
-    if len(tasks) != len(have):
+    if len(tasks) != len(have) and not (set(have) & ill_formed):
         problems.append("parser produced %d tasks for %d task uuids" % (len(tasks), len(have)))
     open_nested = 0
     for t in tasks:
@@ -161,13 +192,17 @@ def post_mortem(raw, ack, reference, problems):
         except BaseException as e:
             problems.append("task root unavailable: %r" % (e,))
             continue
+        if u in ill_formed:
+            continue  # (parsing it raised nothing; its shape is not judged)
         levels, acts = [], []
         collect(root, levels, acts)
         want = sorted(tuple(m["task_level"]) for m in have[u])
         if sorted(levels) != want:
             problems.append("parsed task holds levels %s, the file has %s" % (sorted(levels)[:6], want[:6]))
         complete = len(have[u]) == ref_count[u]
-        if t.is_complete() != complete:
+        if u in ill_formed:
+            pass  # a message logged in an action's context after that action ended: "complete" has no agreed meaning for such a task
+        elif t.is_complete() != complete:
             problems.append("task with %d of %d messages present reported is_complete()=%s" % (len(have[u]), ref_count[u], t.is_complete()))
         ends = set(tuple(m["task_level"][:-1]) for m in have[u] if m.get("action_status") in ("succeeded", "failed"))
         starts = set(tuple(m["task_level"][:-1]) for m in have[u] if m.get("action_status") == "started")
@@ -187,16 +222,16 @@ def post_mortem(raw, ack, reference, problems):
     return len(lines), open_nested
 
 
-def make_program(rng, big=False):
+def make_program(rng, big=False, late=False):
     g = gen.ProgGen(rng, max_depth=rng.choice([3, 4]), max_nodes=rng.choice([8, 14, 22]) if not big else 300, value_depth=1, remote_vias=("same",),
-                    fail_p=0.3)
+                    fail_p=0.3, extra_styles=("ctx_finish_inside", "ctx_finish_inside") if late else ())
     prog = g.program()
     return prog
 
 
-def reference_of(prog, mode, tmpdir, repeat=1):
+def reference_of(prog, mode, tmpdir, repeat=1, audit=False, late=False):
     path = os.path.join(tmpdir, "ref.log")
-    ack, nacks, status = spawn(prog, path, mode, None, repeat)
+    ack, nacks, status = spawn(prog, path, mode, None, repeat, audit=audit, late=late)
     with open(path, "rb") as f:
         raw = f.read()
     os.unlink(path)
@@ -220,9 +255,13 @@ def run_case(spec):
     c = res["counters"]
     try:
         if spec["part"] == "enum":
-            prog = make_program(rng)
+            audit = spec["i"] % 4 == 1
+            late = spec["i"] % 4 == 2  # finish() inside the action's own context(), then a message logged there after its end
+            prog = make_program(rng, late=late)
             mode = MODES[spec["i"] % 3]
-            ref, err = reference_of(prog, mode, tmpdir)
+            c["programs_with_a_logging_destination"] = int(audit)
+            c["programs_logging_after_an_action_ended"] = int(late)
+            ref, err = reference_of(prog, mode, tmpdir, audit=audit, late=late)
             if ref is None:
                 res["violations"].append({"msg": "reference run failed: %s" % err, "mech": None, "detail": {"program": prog}})
                 return res
@@ -230,7 +269,7 @@ def run_case(spec):
             for k in range(len(ref)):
                 for ph in crash.PHASES:
                     path = os.path.join(tmpdir, "c.log")
-                    ack, nacks, status = spawn(prog, path, mode, (k, ph))
+                    ack, nacks, status = spawn(prog, path, mode, (k, ph), audit=audit, late=late)
                     with open(path, "rb") as f:
                         raw = f.read()
                     os.unlink(path)
